@@ -17,8 +17,11 @@ def run_cli(kind, cases_path, tag):
     return M.sharded(cases_path, work, lambda i, o, w: [HVCLI, kind, "--in", i, "--out", o, "--work", w, "--hyeong", hy, "--jobs", "2"])
 
 
-def validate_sessions(ck, trace, parts, describe, label):
+def validate_sessions(ck, trace, parts, describe, label, retry_kind=None):
+    """retry_kind: "dbg" | "repl" | "cli" - sessions killed by the harness's time limit are repeated once,
+    alone, before they count (a loaded machine must not turn into an alarm)"""
     lines = [l for l in open(trace).read().split("\n") if l.strip()]
+    timed = []
     parts = max(1, min(parts, (len(lines) + 39) // 40))
     files = []
     for i in range(parts):
@@ -43,6 +46,9 @@ def validate_sessions(ck, trace, parts, describe, label):
                 continue
             e = json.loads(t[2])
             exp = json.loads(t[3]) if len(t) > 3 else None
+            if retry_kind and e.get("timeout"):
+                timed.append(e)
+                continue
             ck.violation("%s %s" % (label, describe(e)), {"kind": e["ev"], "event": e, "expected": exp})
     ck.cov["traces_validated_against_impl"] += total - skipped
     ck.cov["vacuity"][label + "_sessions"] = total
@@ -50,6 +56,20 @@ def validate_sessions(ck, trace, parts, describe, label):
     log("%s: %d sessions validated (%d outside the claim) in %.1fs" % (label, total, skipped, time.time() - t0))
     if total and skipped > 0.8 * total:
         raise ToolError("vacuity: %d of %d sessions of %s are outside the claim" % (skipped, total, label))
+    if timed:
+        work = tmpdir("retry_%s_%s" % (retry_kind, label))
+        cpath = os.path.join(work, "cases.json")
+        keys = {"dbg": ("prog", "script"), "repl": ("lines",), "cli": ("sub", "level", "fileKind", "file", "stdin", "kind", "bound")}[retry_kind]
+        cases = [{k: e[k] for k in keys} for e in timed]
+        for c in cases:
+            c["timeout_ms"] = 30000
+        M.write_cases(cpath, cases)
+        os.environ["HV_SLOW"] = "1"
+        try:
+            validate_sessions(ck, run_cli(retry_kind, cpath, "retry"), 1, describe, label + "-retry")
+        finally:
+            os.environ.pop("HV_SLOW", None)
+        ck.cov["vacuity"][label + "_timeouts_retried"] = len(timed)
 
 
 def script_str(script):
@@ -139,11 +159,11 @@ def check_c11(pid, tier, seed, replay):
     quick = tier == "quick"
     rng = random.Random(seed)
     cases, n = mc_dbg(ck, 3 if quick else 4, "{1, 2, 3, 4, 5, 6, 7, 8}")
-    validate_sessions(ck, run_cli("dbg", cases, "R"), 14, describe_dbg, "R")
+    validate_sessions(ck, run_cli("dbg", cases, "R"), 14, describe_dbg, "R", "dbg")
     ck.cov["exhaustive"] = True
     # one command deeper on the two shortest looping programs (a back edge to the first command)
     cases, n = mc_dbg(ck, 4 if quick else 5, "{7, 8}")
-    validate_sessions(ck, run_cli("dbg", cases, "R4"), 14, describe_dbg, "R4")
+    validate_sessions(ck, run_cli("dbg", cases, "R4"), 14, describe_dbg, "R4", "dbg")
     with open(cases) as f:
         f.readline()
         c = json.loads(f.readline())
@@ -160,7 +180,7 @@ def check_c11(pid, tier, seed, replay):
     work = tmpdir("c11_T")
     cpath = os.path.join(work, "cases.json")
     M.write_cases(cpath, tc)
-    validate_sessions(ck, run_cli("dbg", cpath, "T"), 14, describe_dbg, "T")
+    validate_sessions(ck, run_cli("dbg", cpath, "T"), 14, describe_dbg, "T", "dbg")
     ck.sample({"program": M.prog_text(tc[5]["prog"]), "script": script_str(tc[5]["script"])[:300]})
     ck.cov["rule"] = "R: every command sequence up to the bound on six programs (exhaustive); T: seeded programs x scripts of 5-300 commands"
     return ck.finish()
@@ -222,7 +242,7 @@ def check_c12(pid, tier, seed, replay):
             ck.cov["exhaustive"] = True
         sub = os.path.join(os.path.dirname(cases), "pick.json")
         open(sub, "w").write("\n".join(lines) + "\n")
-        validate_sessions(ck, run_cli("repl", sub, "R" + slice_), 14, describe_repl, "R-" + slice_)
+        validate_sessions(ck, run_cli("repl", sub, "R" + slice_), 14, describe_repl, "R-" + slice_, "repl")
         ck.sample(describe_repl(json.loads(lines[1]) | {"panicked": False}).split(":: ", 1)[1])
     tc = []
     fixed = [M.one_to_n(8), M.example_prog("hello_world"), M.example_prog("1_to_8"),
@@ -256,7 +276,7 @@ def check_c12(pid, tier, seed, replay):
     work = tmpdir("c12_T")
     cpath = os.path.join(work, "cases.json")
     M.write_cases(cpath, tc)
-    validate_sessions(ck, run_cli("repl", cpath, "T"), 14, describe_repl, "T")
+    validate_sessions(ck, run_cli("repl", cpath, "T"), 14, describe_repl, "T", "repl")
     ck.cov["rule"] = "R: every cut of every program of the slices (exhaustive or seeded sample, see vacuity); T: seeded programs x cuts x clear/help/blank lines"
     return ck.finish()
 
@@ -369,7 +389,7 @@ def check_c13(pid, tier, seed, replay):
     work = tmpdir("c13")
     cpath = os.path.join(work, "cases.json")
     M.write_cases(cpath, sc)
-    validate_sessions(ck, run_cli("cli", cpath, "S"), 14, describe_cli, "scenarios")
+    validate_sessions(ck, run_cli("cli", cpath, "S"), 14, describe_cli, "scenarios", "cli")
     kinds = sorted(set((s["sub"], s["level"], s["fileKind"], s["kind"]) for s in sc))
     ck.cov["evaluations"] = len(sc)
     ck.cov["distinct_nontrivial"] = len(kinds)
